@@ -261,3 +261,16 @@ CHECKS["C03"] = {
     "note": ("That two concrete spellings of one document yield identical canonical bytes is not decided: it rests on how the hand-written parser groups runtime token streams "
              "(spaces around ::, optional quotes, one-line vs multi-line lists). R03.1 evaluates the extracted regex constants with the stdlib re module, not repository code."),
 }
+
+CHECKS["C04"]["note"] = CHECKS["C04"]["note"] + ' Added after the second seeding round: R04.7 (no whole-text transformer / str.splitlines before the lexer), R04.8 (no untyped memoisation: True/1/1.0 share an lru_cache slot).'
+CHECKS["C06"]["note"] = CHECKS["C06"]["note"] + ' Added after the second seeding round: R06.7 (every functools.lru_cache is typed=True; functools.cache unused).'
+CHECKS["C08"]["note"] = CHECKS["C08"]["note"] + ' Added after the second seeding round: the unknown-field policy handed to the checker derives only from the schema (no caller-flag override).'
+CHECKS["C09"]["note"] = CHECKS["C09"]["note"] + ' Added after the second seeding round: R09.7 (the lenient pre-pass protects every nested range).'
+CHECKS["C10"]["note"] = CHECKS["C10"]["note"] + ' Added after the second seeding round: R10.9 (every non-exceptional path from a document change to the temp-file write re-emits the written text; flag-sensitive).'
+CHECKS["C11"]["note"] = CHECKS["C11"]["note"] + ' Added after the second seeding round: R11.8 (the RepairLog is copied into corrections before any later step that can fail, exception edges included).'
+CHECKS["C13"]["note"] = CHECKS["C13"]["note"] + ' Added after the second seeding round: R13.7 (a single NUMBER token is read as token.value, never as its lexeme).'
+CHECKS["C14"]["note"] = CHECKS["C14"]["note"] + ' Added after the second seeding round: R14.6 (projection renderings use plain emit(doc)), R14.7 (list values are converted element by element); nested-META dicts are a value kind of their own in R14.1.'
+CHECKS["C15"]["note"] = CHECKS["C15"]["note"] + ' Added after the second seeding round: R15.7 (the sealed copy carries nothing that the emitter writes after the sections).'
+CHECKS["C16"]["note"] = CHECKS["C16"]["note"] + ' Added after the second seeding round: R16.8 (every success return is after os.replace or is the corrections_only dry run).'
+CHECKS["C18"]["note"] = CHECKS["C18"]["note"] + ' Added after the second seeding round: R18.8 (the header of a nested META block is emitted unconditionally: present-but-empty is not absent).'
+CHECKS["C19"]["note"] = CHECKS["C19"]["note"] + ' Added after the second seeding round: R19.8 (no expanduser/expandvars/normpath/realpath/abspath on user paths in tools, CLI and file_ops).'
